@@ -2,6 +2,7 @@ package rules
 
 import (
 	"fmt"
+	"go/token"
 	"go/types"
 	"strings"
 
@@ -339,7 +340,7 @@ func checkWSUnmask(c *Ctx) {
 	P, R := c.P, c.R
 	R.Require("C13.unmask", 3)
 	adv := P.Func("websocket", "(*Conn).advanceFrame")
-	rd := P.Func("websocket", "(*messageReader).Read")
+	rd := wsPayloadReader(P) // (*messageReader).Read, or the helper the per-frame read was extracted into
 	mb := P.Func("websocket", "maskBytes")
 	if !R.Anchor(adv != nil && rd != nil && mb != nil, "C13.unmask", "websocket.advanceFrame/messageReader.Read/maskBytes") {
 		return
@@ -512,7 +513,7 @@ func checkWSSeq(c *Ctx) {
 		ok := false
 		core.EachInstr(cl, func(in ssa.Instruction) {
 			if call, isCall := in.(*ssa.Call); isCall && call.Call.StaticCallee() == ffn && len(call.Call.Args) == 3 {
-				if core.Path(call.Call.Args[1]) == "true" {
+				if fi := core.ParamIndex(ffn, "final"); fi >= 0 && core.Path(call.Call.Args[fi]) == "true" {
 					ok = true
 				}
 			}
@@ -574,6 +575,52 @@ func checkWSHandshake(c *Ctx) {
 				second = p
 			}
 		})
+		// the one-shot form: sha1.Sum(material) with material = key followed by the GUID (appends or a string concatenation)
+		if !(okOrder && first != "") {
+			core.EachInstr(fn, func(in ssa.Instruction) {
+				call, ok := in.(*ssa.Call)
+				if !ok || call.Call.StaticCallee() == nil || core.FullName(call.Call.StaticCallee()) != "sha1.Sum" || len(call.Call.Args) != 1 {
+					return
+				}
+				var items []string
+				var walk func(v ssa.Value, d int)
+				walk = func(v ssa.Value, d int) {
+					v = core.StripConv(v)
+					if d > 8 {
+						return
+					}
+					switch x := v.(type) {
+					case *ssa.Convert:
+						walk(x.X, d+1)
+					case *ssa.BinOp:
+						if x.Op == token.ADD {
+							walk(x.X, d+1)
+							walk(x.Y, d+1)
+						}
+					case *ssa.Call:
+						if b, isB := x.Call.Value.(*ssa.Builtin); isB && b.Name() == "append" && len(x.Call.Args) == 2 {
+							walk(x.Call.Args[0], d+1)
+							walk(x.Call.Args[1], d+1)
+						}
+					case *ssa.MakeSlice, *ssa.Slice:
+						if sl, isSl := x.(*ssa.Slice); isSl {
+							if _, fromMake := sl.X.(*ssa.Alloc); !fromMake {
+								items = append(items, core.Path(x))
+							}
+						}
+					default:
+						items = append(items, core.Path(v))
+					}
+				}
+				walk(call.Call.Args[0], 0)
+				if len(items) == 2 {
+					first, second = items[0], items[1]
+				}
+				// the digest, and only it, is base64-encoded afterwards
+				iSum2, iB642 := strings.Index(s, "sha1.Sum"), strings.Index(s, "EncodeToString")
+				okOrder = iSum2 >= 0 && iB642 > iSum2
+			})
+		}
 		R.Check(okOrder && strings.Contains(first, "challengeKey") && strings.Contains(second, "keyGUID"), "C13.hs", "websocket|computeAcceptKey|sha1(key+GUID)", P.Pos(fn.Pos()),
 			"accept key = base64(SHA-1(challenge key followed by the GUID))", "the accept key is not base64(SHA-1(key + GUID)) (calls: "+s+"; hashed "+first+" then "+second+")", nil)
 	}
